@@ -75,7 +75,25 @@ def arrangements(draw):
     op = draw(st.sampled_from(exprgen.ASSOC))
     n = draw(st.integers(2, 5))
     ops = [draw(exprgen.expr(w, 2)) for _ in range(n)]
-    if draw(st.booleans()):
+    mode = draw(st.sampled_from(["random", "random", "interacting", "flattening"])) if w >= 8 else "random"
+    if mode == "interacting":
+        # operands that rewrite rules combine pairwise (a shift and the mask that covers exactly what it leaves, a term and its negation,
+        # neutral and absorbing constants): a rule that looks at two operands must not depend on how the list was parenthesised
+        X, Y = ["id", "x%d" % w, w], ["id", "y%d" % w, w]
+        c = draw(st.sampled_from([1, 4, w // 2, w - 8 if w > 8 else 3, w - 1]))
+        full = (1 << w) - 1
+        pool = [X, Y, ["op", ">>", [X, ["int", w, c]]], ["op", "<<", [X, ["int", w, c]]], ["int", w, full >> c], ["int", w, (full << c) & full], ["int", w, (1 << c) - 1],
+                ["int", w, 0], ["int", w, full], ["op", "-", [X]], ["op", "^", [X, Y]], ["op", ">>", [Y, ["int", w, c]]], ["int", w, 1], ["op", "&", [X, ["int", w, full >> c]]]]
+        ops = [draw(st.sampled_from(pool)) for _ in range(draw(st.integers(3, 4)))]
+    elif mode == "flattening":
+        # two operands that differ only in where a nested variadic node ends: f(g(p, q), r, t) and f(g(p, q, r), t)
+        f, g = draw(st.sampled_from([(a, b) for a in exprgen.ASSOC for b in exprgen.ASSOC if a != b]))
+        p_, q_, r_, t_ = [draw(st.sampled_from([["id", "%s%d" % (nm, w), w] for nm in "abcd"] + [["op", "^" if g != "^" else "+", [["id", "e%d" % w, w], ["id", "f%d" % w, w]]], ["int", w, 0xFF & ((1 << w) - 1)]]))
+                          for _ in range(4)]
+        ops = [["op", f, [["op", g, [p_, q_]], r_, t_]], ["op", f, [["op", g, [p_, q_, r_]], t_]]]
+        if draw(st.booleans()):
+            ops.append(draw(exprgen.expr(w, 1)))
+    elif draw(st.booleans()):
         # near-equal operands stress the tie-breaking of the canonical order
         k, m = draw(exprgen.mutate(ops[0]))
         if k is not None:
